@@ -77,6 +77,19 @@ def remoteCase (inp impl : String) : CaseOut :=
     let want := s!"reported={reported} resumed={resumed}"
     { model := want, spec := if impl = want then "ok" else s!"FAIL:C17 the stream was ended by the peer but the writer neither reported it nor made a fresh attempt: [{impl}] expected [{want}]",
       tags := ["abort"], nontrivial := true }
+  else if kind = "reconnect" then
+    -- n sends over a working connection, the connection is lost (connLost), the router catches up, the peer
+    -- accepts again and n more are sent. The spelling of the address (host name or IP) plays no part in the model.
+    let n := (kvNat ws "msgs").getD 0
+    let s0 : St := { routes := ["peer"], registered := ["peer"] }
+    let (s1, o1) := connLost s0 "peer"
+    let s2 : St := (List.range n).foldl (fun s i => send s "peer" i) s1
+    let (_, o2) := drainRouter (fun _ => true) (n + 5) s2
+    let reported := if o1.any (fun o => match o with | .unreachableEvent .. => true | _ => false) then 1 else 0
+    let later := (o2.filter fun o => match o with | .sent .. => true | _ => false).length
+    let want := s!"first={n} reported={reported} later={later}"
+    { model := want, spec := if impl = want then "ok" else s!"FAIL:C17 a lost connection was not reported / later sends to the same address did not reach the peer that is up again: [{impl}] expected [{want}]",
+      tags := ["reconnect", "reconnect-" ++ (kv ws "host").getD "?"], nontrivial := true }
   else if kind = "state" then
     let ops := commaList ((kv ws "ops").getD "")
     let stepOp (acc : RState × List String) (op : String) : RState × List String :=
